@@ -101,7 +101,7 @@ type attemptScript struct {
 	grpcStat  string
 	early     bool // 103 Early Hints before the final status
 	closeBody bool // the handler closes the request body when done with it (http.Transport always does)
-	writeHow  int  // 0 Write, 1 io.WriteString, 2 io.Copy, 3 fmt.Fprintf
+	writeHow  int  // 0 Write, 1 io.WriteString, 2 io.Copy from a source with WriteTo, 3 fmt.Fprintf, 4 io.Copy from a plain reader per piece, 5 one io.Copy of the whole body from a reader that delivers it in those pieces
 	tryHijack bool // the handler first tries to take over the connection; the client's writer refuses or cannot, and it answers normally
 	abort     bool // after its writes the handler aborts with panic(http.ErrAbortHandler), as a reverse proxy does when the backend breaks off
 }
@@ -240,13 +240,26 @@ func (ex *exchange) handler() http.Handler {
 		if sc.status != 0 {
 			w.WriteHeader(sc.status)
 		}
+		whole := sc.writeHow == 5 && len(sc.writes) > 0
 		for _, n := range sc.writes {
+			whole = whole && n > 0 // an empty write is a call of its own; a reader has no way to deliver one
+		}
+		if whole {
+			// a handler that relays a file or an upstream stream: one copy, the source hands over a piece per read
+			_, _ = io.Copy(w, &piecewiseReader{b: respByte(a), pieces: append([]int(nil), sc.writes...)})
+		}
+		for _, n := range sc.writes {
+			if whole {
+				break
+			}
 			chunk := bytes.Repeat([]byte{respByte(a)}, n)
 			switch sc.writeHow { // the ways handlers put bytes on a ResponseWriter
 			case 1:
 				_, _ = io.WriteString(w, string(chunk)) // uses the writer's WriteString if it has one
 			case 2:
-				_, _ = io.Copy(w, bytes.NewReader(chunk)) // uses the writer's ReadFrom if it has one
+				_, _ = io.Copy(w, bytes.NewReader(chunk)) // the source writes itself (WriteTo): plain Write calls on the writer
+			case 4:
+				_, _ = io.Copy(w, struct{ io.Reader }{bytes.NewReader(chunk)}) // uses the writer's ReadFrom if it has one
 			case 3:
 				_, _ = fmt.Fprintf(w, "%s", chunk)
 			default:
@@ -424,3 +437,27 @@ func sameHeader(a, b http.Header) bool {
 var errClientGone = errors.New("simulated: client went away")
 
 func resetDisk() { simfs.Reset() }
+
+// piecewiseReader delivers pieces[i] bytes b per Read (a piece larger than the caller's buffer takes several reads).
+type piecewiseReader struct {
+	b      byte
+	pieces []int
+}
+
+func (p *piecewiseReader) Read(buf []byte) (int, error) {
+	for len(p.pieces) > 0 && p.pieces[0] == 0 {
+		p.pieces = p.pieces[1:]
+	}
+	if len(p.pieces) == 0 {
+		return 0, io.EOF
+	}
+	n := p.pieces[0]
+	if n > len(buf) {
+		n = len(buf)
+	}
+	for i := 0; i < n; i++ {
+		buf[i] = p.b
+	}
+	p.pieces[0] -= n
+	return n, nil
+}
